@@ -170,9 +170,13 @@ Section Reals.
   Notation Op := (R_ops rnd).
   Notation spec := (spec rnd).
 
-  (* the contract of torch.linalg.eigh for the matrix M it is called on: M = Q diag(L) Q^T, Q orthogonal *)
+  (* the contract of torch.linalg.eigh for the matrix M it is called on: M = Q diag(L) Q^T and Q^T Q = I.
+     (Q Q^T = I follows for square Q: MatrixProofs.left_inv_right_inv.) *)
   Definition eigh_contract (n : nat) (M : mat R) (L : vec R) (Q : mat R) : Prop :=
-    meq n M (spec n Q L) /\ morth Op n Q.
+    meq n M (spec n Q L) /\ morth_cols Op n Q.
+
+  Lemma contract_orth n M L Q : eigh_contract n M L Q -> morth Op n Q.
+  Proof. intros [_ H]. apply (morth_of_cols rnd); exact H. Qed.
 
   Definition nonzero (n : nat) (x : vec R) : Prop := exists i, (i < n)%nat /\ x i <> 0.
   Definition psd (n : nat) (A : mat R) : Prop := forall x, 0 <= qform Op n A x.
@@ -247,9 +251,9 @@ Section Reals.
   Qed.
 
   Theorem eigen_root_pd n p q eps enh L Q x :
-    morth_rows Op n Q -> nonzero n x -> 0 < qform Op n (eigen_X Op n p q eps enh L Q) x.
+    morth_cols Op n Q -> nonzero n x -> 0 < qform Op n (eigen_X Op n p q eps enh L Q) x.
   Proof.
-    intros Hr Hx. rewrite eigen_X_spec. apply qform_spec_pos; [exact Hr| |exact Hx].
+    intros Hc Hx. pose proof (morth_cols_rows rnd n Q Hc) as Hr. rewrite eigen_X_spec. apply qform_spec_pos; [exact Hr| |exact Hx].
     intros i _. apply eigen_d_pos.
   Qed.
 
@@ -263,11 +267,11 @@ Section Reals.
   Qed.
 
   Theorem eigen_root_eig_le n p q eps enh L Q :
-    0 < eps -> expo Op p q < 0 -> morth_rows Op n Q ->
+    0 < eps -> expo Op p q < 0 -> morth_cols Op n Q ->
     (forall i, (i < n)%nat -> eigen_d n p q eps enh L i <= Rpower eps (expo Op p q))
     /\ forall x, qform Op n (eigen_X Op n p q eps enh L Q) x <= Rpower eps (expo Op p q) * dot Op n x x.
   Proof.
-    intros He Hx Hr. split; [intros; apply eigen_d_le; assumption|].
+    intros He Hx Hc. pose proof (morth_cols_rows rnd n Q Hc) as Hr. split; [intros; apply eigen_d_le; assumption|].
     intros x. rewrite eigen_X_spec. apply qform_spec_le; [exact Hr|]. intros; apply eigen_d_le; assumption.
   Qed.
 
@@ -284,7 +288,7 @@ Section Reals.
   Theorem eigen_root_commutes_query n p q eps enh L Q M :
     eigh_contract n M L Q -> mcommute Op n (eigen_X Op n p q eps enh L Q) M.
   Proof.
-    intros [HM [Hc _]]. rewrite eigen_X_spec, HM. apply spec_commute. exact Hc.
+    intros [HM Hc]. rewrite eigen_X_spec, HM. apply spec_commute. exact Hc.
   Qed.
 
   Theorem eigen_root_commutes n p q eps enh L Q A :
@@ -319,10 +323,10 @@ Section Reals.
 
   (* two valid decompositions of the same matrix give the same Q f(L) Q^T, for every f *)
   Theorem spectral_fun_unique n Q L Q' L' (f : R -> R) :
-    morth Op n Q -> morth Op n Q' -> meq n (spec n Q L) (spec n Q' L') ->
+    morth_cols Op n Q -> morth_cols Op n Q' -> meq n (spec n Q L) (spec n Q' L') ->
     meq n (spec n Q (fun i => f (L i))) (spec n Q' (fun i => f (L' i))).
   Proof.
-    intros [Hc Hr] [Hc' Hr'] HS.
+    intros Hc Hc' HS. pose proof (morth_cols_rows rnd n Q Hc) as Hr. pose proof (morth_cols_rows rnd n Q' Hc') as Hr'.
     pose proof (intertwine_entries n Q L Q' L' Hc Hc' HS) as HW.
     set (W := mmul Op n (mtrans Q) Q') in *.
     assert (H2 : meq n (mmul Op n (mdiag Op (fun i => f (L i))) W) (mmul Op n W (mdiag Op (fun i => f (L' i))))).
@@ -382,7 +386,7 @@ Section Reals.
     eigh_contract n M L Q -> eigh_contract n M L' Q' ->
     meq n (eigen_X Op n p q eps enh L Q) (eigen_X Op n p q eps enh L' Q').
   Proof.
-    intros Hn [HM HQ] [HM' HQ'].
+    intros Hn [HM HQ] [HM' HQ']. apply (morth_of_cols rnd) in HQ, HQ'.
     assert (HS : meq n (spec n Q L) (spec n Q' L')) by (rewrite <- HM, <- HM'; reflexivity).
     rewrite !eigen_X_spec. unfold eigen_d.
     assert (E : veq n (fun i => Rpower (eigen_shifted Op n L eps enh i) (expo Op p q))
@@ -392,20 +396,20 @@ Section Reals.
                        (fun i => (fun t => Rpower (shiftf (vmin Op n L) eps enh t) (expo Op p q)) (L' i))).
     { intros i _. rewrite eigen_shifted_eq, <- (decomp_vmin n Q L Q' L' Hn HQ HQ' HS). reflexivity. }
     rewrite E, E'.
-    exact (spectral_fun_unique n Q L Q' L' (fun t => Rpower (shiftf (vmin Op n L) eps enh t) (expo Op p q)) HQ HQ' HS).
+    exact (spectral_fun_unique n Q L Q' L' (fun t => Rpower (shiftf (vmin Op n L) eps enh t) (expo Op p q)) (proj1 HQ) (proj1 HQ') HS).
   Qed.
 
   (* ---------------------------------------------------------------- C11: orthogonal equivariance *)
-  Lemma contract_conj n P A L Q : morth Op n P -> eigh_contract n A L Q ->
+  Lemma contract_conj n P A L Q : morth_cols Op n P -> eigh_contract n A L Q ->
     eigh_contract n (mmul Op n (mmul Op n P A) (mtrans P)) L (mmul Op n P Q).
   Proof.
-    intros HP [HA HQ]. split; [|apply (morth_mmul rnd); assumption].
+    intros HP [HA HQ]. apply (morth_of_cols rnd) in HP, HQ. split; [|apply (proj1 (morth_mmul rnd n P Q HP HQ))].
     rewrite HA. apply (spec_conj rnd).
   Qed.
 
   (* X(P A P^T) = P X(A) P^T: whatever valid decomposition (L', Q') eigh returns for P A P^T *)
   Theorem eigen_root_equivariant n p q eps P A L Q L' Q' : (0 < n)%nat ->
-    morth Op n P ->
+    morth_cols Op n P ->
     eigh_contract n A L Q ->
     eigh_contract n (mmul Op n (mmul Op n P A) (mtrans P)) L' Q' ->
     meq n (eigen_X Op n p q eps false L' Q')
@@ -420,7 +424,7 @@ Section Reals.
   (* eigenvalues of a PSD matrix are non-negative: L i = q_i^T A q_i *)
   Lemma psd_eigs_nonneg n A L Q : psd n A -> eigh_contract n A L Q -> forall i, (i < n)%nat -> 0 <= L i.
   Proof.
-    intros HP [HA [Hc _]] i Hi. specialize (HP (mcol Q i)). rewrite HA, (qform_spec rnd) in HP.
+    intros HP [HA Hc] i Hi. specialize (HP (mcol Q i)). rewrite HA, (qform_spec rnd) in HP.
     rewrite (sumn_ext Op n _ (fun k => if Nat.eqb k i then L k else 0)) in HP.
     - rewrite (rsum_delta_r rnd n i L Hi) in HP. exact HP.
     - intros k Hk.
@@ -457,7 +461,7 @@ Section Reals.
           (mid Op).
   Proof.
     intros Hn Hp He HP HC Hx. pose proof (psd_eigs_nonneg n A L Q HP HC) as HL.
-    destruct HC as [HA [Hc Hr]].
+    destruct HC as [HA Hc]. pose proof (morth_cols_rows rnd n Q Hc) as Hr.
     rewrite eigen_X_spec, ridge_eq, HA, (spec_add_scalar rnd n Q L eps Hr).
     rewrite !(spec_pow rnd) by (split; assumption). rewrite (spec_mul rnd) by exact Hc.
     rewrite <- (spec_one rnd n Q Hr). apply spec_proper; [reflexivity|].
@@ -493,7 +497,7 @@ Section Reals.
   Proof.
     intros Hn [HA HQ] HC'.
     assert (HC2 : eigh_contract n (ridge Op n A eps) (fun i => L i + eps) Q).
-    { split; [|exact HQ]. rewrite ridge_eq, HA. apply (spec_add_scalar rnd). apply HQ. }
+    { split; [|exact HQ]. rewrite ridge_eq, HA. apply (spec_add_scalar rnd). apply (morth_cols_rows rnd); exact HQ. }
     rewrite (eigen_X_unique n p q eps true _ L' Q' _ Q Hn HC' HC2).
     rewrite !eigen_X_spec. apply spec_proper; [reflexivity|]. intros i Hi. unfold eigen_d.
     rewrite !eigen_shifted_eq, vmin_add_const by exact Hn. f_equal.
@@ -503,7 +507,7 @@ Section Reals.
   (* ---- the diagonal and 1x1 fast paths return what the eigen path returns -------------------- *)
   Lemma diag_contract n A : mis_diag Op n A -> eigh_contract n A (mdiagonal A) (mid Op).
   Proof.
-    intros HD. split; [|apply (morth_id rnd)].
+    intros HD. split; [|apply (proj1 (morth_id rnd n))].
     unfold MatrixProofs.spec. rewrite (mmul_id_l rnd), (mtrans_id rnd), (mmul_id_r rnd).
     intros i j Hi Hj. unfold mdiag, mdiagonal. destruct (Nat.eqb_spec i j) as [->|Hne]; [reflexivity|].
     apply HD; assumption.
@@ -668,6 +672,89 @@ Section Reals.
     destruct H as (H1 & H2 & H3 & H4). repeat split; assumption.
   Qed.
 
+  (* ---- coupled higher-order iteration: the same invariant ------------------------------------ *)
+  Lemma ho_horner_commute n b base C i Mp :
+    mcommute Op n C base -> mcommute Op n C Mp -> mcommute Op n C (ho_horner Op n b base i Mp).
+  Proof.
+    intros Hb. revert Mp. induction i as [|i IH]; intros Mp HM; cbn [ho_horner]; [exact HM|].
+    apply IH. rewrite memo_eq. apply (mcommute_madd rnd).
+    - apply (mcommute_mscale rnd), (mcommute_id rnd).
+    - apply (mcommute_mmul rnd); assumption.
+  Qed.
+
+  Lemma ho_Mp_commute n order b C M : mcommute Op n C M -> mcommute Op n C (ho_Mp Op n order b M).
+  Proof.
+    intros H. unfold ho_Mp.
+    assert (Hbase : mcommute Op n C (memo Op n (msub Op (mid Op) M))).
+    { rewrite memo_eq. apply (mcommute_msub rnd); [apply (mcommute_id rnd)|exact H]. }
+    apply ho_horner_commute; [exact Hbase|].
+    rewrite (memo_eq Op n (madd Op _ _)). apply (mcommute_madd rnd); apply (mcommute_mscale rnd); [exact Hbase|apply (mcommute_id rnd)].
+  Qed.
+
+  Lemma ho_loop_inv fuel n p order b tol Ar s :
+    state_inv n p Ar s -> state_inv n p Ar (fst (ho_loop Op fuel n p order b tol s)).
+  Proof.
+    revert s; induction fuel as [|fuel IH]; intros s Hs; cbn [ho_loop].
+    - destruct (fltb Op tol (serr s)); exact Hs.
+    - destruct (fltb Op tol (serr s)); [|exact Hs].
+      pose proof (coupled_step_inv n p Ar (sX s) (sM s) (ho_Mp Op n order b (sM s)) Hs) as Hstep.
+      destruct (coupled_step Op n p (ho_Mp Op n order b (sM s)) (sX s) (sM s)) as [X' M'] eqn:E.
+      cbn [fst snd] in Hstep.
+      assert (Hnew : coupled_inv n p Ar X' M').
+      { destruct Hs as (HXM & HXA & HMA & HE).
+        apply Hstep; apply (mcommute_sym rnd), ho_Mp_commute.
+        - exact HXM.
+        - apply (mcommute_refl rnd).
+        - apply (mcommute_sym rnd); exact HMA. }
+      destruct (fltb Op (fmul Op (serr s) (c12 Op)) (err_to_id Op n M')
+                || feqb Op (err_to_id Op n M') (serr s) && fltb Op (serr s) (c1em3 Op)).
+      + cbn [fst]. exact Hnew.
+      + apply IH. exact Hnew.
+  Qed.
+
+  Lemma ho_init_inv n p Ar : (0 < p)%nat -> 0 < trace Op n Ar -> state_inv n p Ar (ho_init Op n p Ar).
+  Proof.
+    intros Hp Ht. unfold ho_init.
+    set (sv := fdiv Op (of_Z Op (-1)) (of_Z Op (Z.of_nat p))).
+    set (z := fdiv Op (f1 Op) (trace Op n Ar)).
+    set (c := fpow Op z (fneg Op sv)).
+    set (M0 := memo Op n (mscale Op z Ar)).
+    assert (Hz : 0 < z) by (unfold z; cbn [fdiv f1 R_ops]; apply Rdiv_lt_0_compat; lra).
+    assert (Hc : c ^ p = z).
+    { unfold c, sv. cbn [fpow fneg fdiv of_Z R_ops].
+      rewrite <- Rpower_pow by (unfold Rpower; apply exp_pos). rewrite Rpower_mult.
+      replace (- (-1 / IZR (Z.of_nat p)) * INR p) with 1; [apply Rpower_1; exact Hz|].
+      rewrite INR_IZR_INZ. assert (IZR (Z.of_nat p) <> 0) by (apply not_0_IZR; lia). field. assumption. }
+    assert (H0 : coupled_inv n p Ar (mscale Op c (mid Op)) M0).
+    { unfold coupled_inv, M0. rewrite !memo_eq. repeat split.
+      - apply mcommute_scale_id.
+      - apply mcommute_scale_id.
+      - apply (mcommute_sym rnd), (mcommute_mscale rnd), (mcommute_refl rnd).
+      - rewrite mpow_scale_id. intros i j Hi Hj. rewrite (mmul_diag_l rnd) by assumption. rewrite Hc. reflexivity. }
+    pose proof (coupled_step_inv n p Ar (mscale Op c (mid Op)) M0 (newton_Mp Op sv M0) H0) as Hstep.
+    destruct (coupled_step Op n p (newton_Mp Op sv M0) (mscale Op c (mid Op)) M0) as [X1 M1] eqn:E.
+    unfold state_inv. cbn [sX sM]. cbn [fst snd] in Hstep.
+    destruct H0 as (HXM & HXA & HMA & HE).
+    apply Hstep; apply (mcommute_sym rnd), newton_Mp_commute.
+    - exact HXM.
+    - apply (mcommute_refl rnd).
+    - apply (mcommute_sym rnd); exact HMA.
+  Qed.
+
+  Theorem higher_order_invariant fuel n p order b tol Ar : (0 < p)%nat -> 0 < trace Op n Ar ->
+    let s := fst (ho_loop Op fuel n p order b tol (ho_init Op n p Ar)) in
+    meq n (mmul Op n (mpow Op n (sX s) p) Ar) (sM s)
+    /\ mcommute Op n (sX s) (sM s) /\ mcommute Op n (sX s) Ar /\ mcommute Op n (sM s) Ar
+    /\ ho_true_error Op n p Ar (sX s) = err_to_id Op n (sM s).
+  Proof.
+    intros Hp Ht s.
+    assert (H : state_inv n p Ar s) by (apply ho_loop_inv, ho_init_inv; assumption).
+    destruct H as (H1 & H2 & H3 & H4). repeat split; try assumption.
+    unfold ho_true_error, err_to_id.
+    assert (HC : mcommute Op n (mpow Op n (sX s) p) Ar) by (apply (mcommute_sym rnd), (mcommute_mpow rnd), (mcommute_sym rnd); exact H2).
+    unfold mcommute in HC. rewrite <- HC, H4. reflexivity.
+  Qed.
+
   (* CONVERGED => the residual of the RETURNED matrix is within the tolerance: |X^p A_ridge - I|max <= tol *)
   Theorem converged_flag_sound n p A eps mi tol out : (0 < p)%nat -> 0 < frob Op n (ridge Op n A eps) ->
     newton_root Op n p A eps mi tol = Ok out -> oflag out = CONVERGED ->
@@ -812,7 +899,7 @@ Section Example.
 
   Example eigh_contract_example : eigh_contract idr 2 Aex Lex Qex.
   Proof.
-    split; [|exact Qex_orth].
+    split; [|exact (proj1 Qex_orth)].
     two_by_two; rewrite (spec_get idr) by lia; cbn [sumn fadd f0 R_ops]; unfold Qex, Lex, Aex; lra.
   Qed.
 
@@ -821,7 +908,7 @@ Section Example.
 
   Example psd_example : psd idr 2 Aex.
   Proof.
-    intros x. destruct eigh_contract_example as [HA [_ Hr]]. rewrite HA, (qform_spec idr).
+    intros x. destruct eigh_contract_example as [HA _]. rewrite HA, (qform_spec idr).
     apply rsum_nonneg. intros k _. assert (0 <= Lex k) by (unfold Lex; destruct k; lra).
     apply Rmult_le_pos; [assumption|apply pow2_ge_0].
   Qed.
